@@ -811,6 +811,8 @@ def run(chk: Check):
     rule_e4_guard(chk, ix)
     rule_e8(chk, ix)
     rule_e9(chk, ix)
+    from .c01 import rule_is_blank
+    rule_is_blank(chk, "K7-token-filter")  # the filter runs on every token: an unguarded look at the previous one raises IndexError
     from .c12 import rule_z4
     rule_z4(chk, ix)   # the file is opened only when there is one (an empty source must still end in SyntaxError)
     tr.feed(chk, {k: "E7-action-type-hazard" for k in (
